@@ -1,0 +1,177 @@
+//go:build verif
+
+package kernel
+
+import (
+	"bytes"
+	"fmt"
+	"os"
+	"sort"
+
+	"github.com/MixinNetwork/mixin/common"
+	"github.com/MixinNetwork/mixin/config"
+	"github.com/MixinNetwork/mixin/crypto"
+	"github.com/MixinNetwork/mixin/storage"
+	"github.com/dgraph-io/ristretto/v2"
+)
+
+// Verification hooks (build tag verif) for C24: a node on a real Badger store
+// (as kernel/election_test.go setupTestNode builds it), a chain whose CoSi
+// aggregator / verifier maps are populated from a description, and thin
+// wrappers around the retire paths of kernel/cosi.go and kernel/queue.go.
+
+const verifC24Config = `[node]
+signer-key = "56a7904a2dfd71c397bb48584033d8cb6ddcde9b46b7d91f07d2ede061723a0b"
+consensus-only = true
+memory-cache-size = 16
+cache-ttl = 7200
+ring-cache-size = 4096
+ring-final-size = 16384
+[network]
+listener = "mixin-node.example.com:7239"`
+
+func VerifC24SetupNode(dir, genesisPath string) (*Node, *storage.BadgerStore, error) {
+	if err := os.WriteFile(dir+"/config.toml", []byte(verifC24Config), 0644); err != nil {
+		return nil, nil, err
+	}
+	custom, err := config.Initialize(dir + "/config.toml")
+	if err != nil {
+		return nil, nil, err
+	}
+	gns, err := common.ReadGenesis(genesisPath)
+	if err != nil {
+		return nil, nil, err
+	}
+	cache, err := ristretto.NewCache(&ristretto.Config[[]byte, any]{
+		NumCounters: 1e5,
+		MaxCost:     1 << 26,
+		BufferItems: 64,
+	})
+	if err != nil {
+		return nil, nil, err
+	}
+	store, err := storage.NewBadgerStore(custom, dir)
+	if err != nil {
+		return nil, nil, err
+	}
+	node, err := SetupNode(custom, store, cache, gns)
+	if err != nil {
+		return nil, nil, err
+	}
+	return node, store, nil
+}
+
+func (node *Node) VerifC24Threshold(timestamp uint64) int {
+	return node.ConsensusThreshold(timestamp, false)
+}
+
+func (node *Node) VerifC24Requeue(hashes []crypto.Hash) {
+	node.requeueTransactions(hashes)
+}
+
+// VerifC24Proposal describes one snapshot proposal.
+type VerifC24Proposal struct {
+	Hash         crypto.Hash
+	Timestamp    uint64
+	Transactions []crypto.Hash
+	Commitments  int
+	Responses    int
+}
+
+type VerifC24Chain struct {
+	chain     *Chain
+	snapshots []*common.Snapshot // by verifier / proposal index
+	verifiers []*CosiVerifier    // by index
+}
+
+func verifC24Snapshot(node *Node, p VerifC24Proposal) *common.Snapshot {
+	return &common.Snapshot{
+		Version:      common.SnapshotVersionCommonEncoding,
+		NodeId:       node.IdForNetwork,
+		RoundNumber:  1,
+		Timestamp:    p.Timestamp,
+		Transactions: append([]crypto.Hash(nil), p.Transactions...),
+		Hash:         p.Hash,
+	}
+}
+
+// VerifC24NewChain builds a chain with the given proposals.  proposals[i] is
+// the snapshot of verifier object i.  aggs lists the indices of the proposals
+// that have a local aggregator (keyed, as cosiSendAnnouncement does, by the
+// snapshot hash).  vkeys/vidx is the verifier map: key -> verifier object index.
+func VerifC24NewChain(node *Node, proposals []VerifC24Proposal, aggs []int, vkeys []crypto.Hash, vidx []int) *VerifC24Chain {
+	c := &VerifC24Chain{}
+	c.chain = &Chain{
+		node:            node,
+		ChainId:         node.IdForNetwork,
+		CosiAggregators: make(map[crypto.Hash]*CosiAggregator),
+		CosiVerifiers:   make(map[crypto.Hash]*CosiVerifier),
+	}
+	for _, p := range proposals {
+		s := verifC24Snapshot(node, p)
+		c.snapshots = append(c.snapshots, s)
+		c.verifiers = append(c.verifiers, &CosiVerifier{Snapshot: s})
+	}
+	for _, i := range aggs {
+		p, s := proposals[i], c.snapshots[i]
+		agg := &CosiAggregator{
+			Snapshot:       s,
+			WantTxs:        make(map[crypto.Hash][]crypto.Hash),
+			FullChallenges: make(map[crypto.Hash]bool),
+			Commitments:    make(map[int]*crypto.Key),
+			Responses:      make(map[int]*[32]byte),
+		}
+		for k := 0; k < p.Commitments; k++ {
+			agg.Commitments[k] = new(crypto.Key)
+		}
+		for k := 0; k < p.Responses; k++ {
+			agg.Responses[k] = new([32]byte)
+		}
+		c.chain.CosiAggregators[s.Hash] = agg
+	}
+	for k, key := range vkeys {
+		c.chain.CosiVerifiers[key] = c.verifiers[vidx[k]]
+	}
+	return c
+}
+
+func (c *VerifC24Chain) Aggregators() []crypto.Hash {
+	var out []crypto.Hash
+	for k, agg := range c.chain.CosiAggregators {
+		if agg == nil || agg.Snapshot == nil || agg.Snapshot.Hash != k {
+			panic(fmt.Sprint("aggregator key mismatch ", k))
+		}
+		out = append(out, k)
+	}
+	sort.Slice(out, func(i, j int) bool { return bytes.Compare(out[i][:], out[j][:]) < 0 })
+	return out
+}
+
+// Verifiers returns the verifier map sorted by key, each value as the index of
+// the verifier object it points to (-1: not one of the installed objects).
+func (c *VerifC24Chain) Verifiers() ([]crypto.Hash, []int) {
+	var keys []crypto.Hash
+	for k := range c.chain.CosiVerifiers {
+		keys = append(keys, k)
+	}
+	sort.Slice(keys, func(i, j int) bool { return bytes.Compare(keys[i][:], keys[j][:]) < 0 })
+	idx := make([]int, len(keys))
+	for i, k := range keys {
+		idx[i] = -1
+		for j, v := range c.verifiers {
+			if c.chain.CosiVerifiers[k] == v {
+				idx[i] = j
+			}
+		}
+	}
+	return keys, idx
+}
+
+func (c *VerifC24Chain) Retry(i int)   { c.chain.retryCosiSnapshot(c.snapshots[i]) }
+func (c *VerifC24Chain) Abandon(i int) { c.chain.abandonCosiSnapshot(c.snapshots[i]) }
+func (c *VerifC24Chain) Expire(now uint64) {
+	c.chain.expireCosiAggregators(now)
+}
+func (c *VerifC24Chain) Reset(owned []crypto.Hash) {
+	c.chain.resetCosiStateForNewRound(owned)
+}
